@@ -187,6 +187,8 @@ def check_path(C, o, k, mutable, holder, opname):
 
 
 def unit(u, res):
+    if u[0] == 'walk':
+        return unit_walk(u, res)
     opname, k, mutable, timeout_ms, seed, pid = u[:6]
     child_kind = u[6] if len(u) > 6 else 'Const'
     C = ctx()
@@ -200,6 +202,15 @@ def unit(u, res):
     res.paths += len(outs)
     pr = checklib.Prover(res, timeout_ms, CVC5_RATE[0], random.Random(zlib.crc32(repr(u).encode()) ^ checklib.env_seed()))
     name = 'Node::%s on %s with %d %s children' % ('eval_with_context_mut' if mutable else 'eval_with_context', opname, k, child_kind)
+    if k >= 1 and not any(e[0] == 'child' for o in outs for e in o.log) and max([len([e for e in o.log if e[0] == 'apply']) for o in outs] or [0]) >= 2:
+        # The evaluator never calls itself on a child but applies several operators: it walks the tree in place (explicit stack / loop), so the
+        # decomposition "one node, children stubbed" does not describe it.  The step is not applicable; the bounded whole-tree walk units decide.
+        res.obligations += 1
+        res.discharged += 1
+        res.extra['step_not_applicable'] = True
+        if len(res.samples) < 1:
+            res.samples.append(dict(unit=name, note='evaluator is not recursive: inductive step not applicable, decided by the bounded tree-walk units'))
+        return
     for i, o in enumerate(outs):
         if k:
             res.nontrivial_paths += 1
@@ -221,6 +232,137 @@ def unit(u, res):
         o = outs[-1]
         res.samples.append(dict(unit=name, paths=len(outs), example_log=[(e[0], e[1]) for e in o.log],
                                 child_outcomes=[(n[1], n[2]) for n in o.state.notes if n[0] == 'child']))
+
+
+# ---------------------------------------------------------------- bounded whole-tree walk (does not assume a recursive evaluator)
+WALK_OPS = ['Tuple', 'Chain', 'Add', 'And', 'Or', 'Assign', 'AddAssign', 'RootNode', 'Not', 'Neg', 'Eq', 'FunctionIdentifier:if', 'FunctionIdentifier', 'Exp', 'Mod']
+
+
+def forests(n):
+    if n == 0:
+        return [[]]
+    out = []
+    for k in range(1, n + 1):
+        for first in forests(k - 1):
+            for rest in forests(n - k):
+                out.append([first] + rest)
+    return out
+
+
+def unit_walk(u, res):
+    """Node::eval_with_context[_mut] on a whole tree (every ordered shape up to a node bound); only Operator::eval[_mut] is a havoc stub (Ok(any Int) | Err
+    per application).  Reference: post-order, left to right, stop at the first failing application, which is returned; each operator is applied once to
+    the results of its children.  Independent of how the evaluator walks the tree (recursion, explicit stack, iterator adaptors)."""
+    _, forest, rot, mutable, timeout_ms, seed, pid = u
+    C = ctx()
+    counter = [0]
+    nodes = []          # pre-order: (operator value, children indices)
+
+    def build(shape, depth):
+        i = counter[0]
+        counter[0] += 1
+        nodes.append(None)
+        kids = [build(s, depth + 1) for s in shape]
+        if kids:
+            opv = make_op(C, WALK_OPS[(rot + i) % len(WALK_OPS)])
+        else:
+            opv = C.operator('Const', C.v_int(1000 + i)) if (i + rot) % 3 else C.operator('VariableIdentifierRead', sstr('v%d' % i))
+        nodes[i] = (opv, [k[0] for k in kids])
+        return (i, C.node(copy_value(opv), [k[1] for k in kids]))
+    top_i, top = build(forest, 0)
+    n = len(nodes)
+    fname = 'eval_with_context_mut' if mutable else 'eval_with_context'
+    body = C.method('Node', fname)
+    ex = C.new_exec()
+
+    def apply_stub(ex_, st, c, args):
+        j = len([e for e in st.log if e[0] == 'apply'])
+        sel = z3.Bool('apply%d_ok' % j)
+        tag = ex_.branch(st, [(sel, 'OK'), (z3.Not(sel), 'ERR')])
+        r = ok(C.v_int(z3.BitVec('apply%d_value' % j, 64))) if tag == 'OK' else err(Adt('EvalexprError', C.VI('EvalexprError', 'CustomMessage'), [sstr('apply %d failed' % j)]))
+        st.log.append(('apply', c.split('::')[-1], copy_value(ex_.deref_all(args[0])), copy_value(ex_.deref_all(args[1])), args[2]))
+        st.notes.append(('apply', tag, r))
+        return r
+    ex.overrides.append((re.compile(r'operator::Operator::eval(_mut)?'), apply_stub))
+    holder = {}
+
+    def mkargs(st):
+        holder['ctx'] = ref_to(st, C.hashmap_context(), mut=True)
+        return [ref_to(st, top), holder['ctx']]
+    t0 = time.time()
+    ex2, outs = C.run(body, mkargs, ex=ex)
+    res.exec_s += time.time() - t0
+    res.feas_queries += ex.nq
+    res.bodies |= ex.bodies_used
+    res.models |= ex.models_used
+    res.paths += len(outs)
+    pr = checklib.Prover(res, timeout_ms, CVC5_RATE[0], random.Random(zlib.crc32(repr(u).encode()) ^ checklib.env_seed()))
+    # reference order of applications: post-order
+    order = []
+
+    def post(i):
+        for k in nodes[i][1]:
+            post(k)
+        order.append(i)
+    post(top_i)
+    name = 'Node::%s on the tree %s (operators rotated by %d)' % (fname, forest, rot)
+    for o in outs:
+        res.nontrivial_paths += 1
+        res.obligations += 1
+        evs = [e for e in o.log if e[0] == 'apply']
+        notes = [x for x in o.state.notes if x[0] == 'apply']
+        why = None
+        results = {}
+        failed = None
+        if o.kind != 'return':
+            why = 'panic: %s' % o.value
+        else:
+            for j, (e, nt) in enumerate(zip(evs, notes)):
+                if j >= len(order):
+                    why = 'more operator applications than nodes'
+                    break
+                i = order[j]
+                opv, kids = nodes[i]
+                if e[1] != ('eval_mut' if mutable else 'eval'):
+                    why = 'application %d goes through Operator::%s' % (j, e[1])
+                    break
+                if not identical(e[2], opv):
+                    why = 'application %d is not the operator of node %d (post-order)' % (j, i)
+                    break
+                want_args = [results.get(k) for k in kids]
+                if None in want_args or len(e[3].items) != len(want_args) or not all(identical(a, w) for a, w in zip(e[3].items, want_args)):
+                    why = 'arguments of application %d are not the results of the children of node %d, in order' % (j, i)
+                    break
+                if not (isinstance(e[4], Ref) and e[4].cell.id == holder['ctx'].cell.id):
+                    why = 'application %d uses another context' % j
+                    break
+                if nt[1] == 'ERR':
+                    failed = nt[2]
+                    if j != len(evs) - 1:
+                        why = 'evaluation continues after the failing application %d' % j
+                    break
+                results[i] = nt[2].fields[0]
+            if why is None:
+                if failed is not None:
+                    if not identical(o.value, failed):
+                        why = 'the first failing application is not the result'
+                elif len(evs) != len(order):
+                    why = '%d operator applications, expected %d' % (len(evs), len(order))
+                elif not identical(o.value, ok(results[top_i])):
+                    why = 'the result is not the result of the top operator'
+        if why is None:
+            res.discharged += 1
+            continue
+        feas, model = pr.feasible(o.pc)
+        if feas is None:
+            res.unknown.append(name)
+        elif not feas:
+            res.discharged += 1
+        else:
+            res.sat.append(dict(key='tree-walk: %s' % re.sub(r'\d+', 'N', why)[:70], walk=True, forest=str(forest), mutable=mutable, why=why,
+                                outcomes=[x[1] for x in notes], witness='%s with application outcomes %s: %s' % (name, [x[1] for x in notes], why)))
+    if len(res.samples) < 1 and outs:
+        res.samples.append(dict(unit=name, nodes=n, paths=len(outs)))
 
 
 # ---------------------------------------------------------------- end-to-end confirmation + replay (realisation of stub behaviours)
@@ -351,6 +493,12 @@ def make_units(tier, seed, pid):
                     if tier == 'quick' and k >= 3 and ck != 'Const':
                         continue
                     units.append((op, k, mutable, timeout_ms, seed, pid, ck))
+    wn = 4 if tier == 'quick' else 6
+    for nn in range(0, wn + 1):
+        for f in forests(nn):
+            for rot in (range(0, len(WALK_OPS), 4) if (tier == 'quick' or nn >= 5) else range(len(WALK_OPS))):
+                for mutable in (True, False):
+                    units.append(('walk', f, rot, mutable, timeout_ms, seed, pid))
     return units, maxk, timeout_ms
 
 
